@@ -28,6 +28,7 @@ class SeqResult:
         self.samples = []
         self.distinct = set()
         self.nontrivial = 0
+        self.nontrivial_set = set()
 
 
 def run_scripts(executions, strict, workdir, flavour="plain", label="b", nontrivial=None, judge=True):
@@ -81,7 +82,8 @@ def run_scripts(executions, strict, workdir, flavour="plain", label="b", nontriv
             if key is not None:
                 res.distinct.add(hash(key))
             if nontrivial and ti < len(exs) and nontrivial(te):
-                res.nontrivial += 1
+                res.nontrivial_set.add(hash(key))
+                res.nontrivial = len(res.nontrivial_set)
         if jr:
             acc, rej, ev, infra = jr
             res.accepted += acc
@@ -103,7 +105,9 @@ def run_scripts(executions, strict, workdir, flavour="plain", label="b", nontriv
         res.rejections += sub.rejections
         res.crashes += sub.crashes
         res.leaks += sub.leaks
-        res.nontrivial += sub.nontrivial
+        res.nontrivial_set |= sub.nontrivial_set
+        res.nontrivial = len(res.nontrivial_set)
+        res.distinct |= sub.distinct
         res.infra = res.infra or sub.infra
     return res
 
